@@ -36,9 +36,7 @@ func main() {
 	chk.Assume("black rows (both binarisers use the global one-row method): 32-bucket histogram, tallest peak, second peak by count x distance^2, NotFound when the peaks are <= 2 buckets apart, valley score (x-black)^2 x (white-x) x (tallest-count[x]) scanned from the white side, black point = valley*8; rows narrower than 3 are thresholded directly, otherwise interior pixels are black iff (4c-l-r)/2 < black point and the first and last pixel are never set (ZXing's documented edge handling). For a single-coloured row NotFound is also accepted, and if the library returns a row where the estimate finds no contrast only the black-point-independent expectation is required")
 	if chk.ReplayFile() != "" {
 		replay(chk.ReplayFile())
-		chk.Finish()
-	}
-	if only() {
+		flush()
 		chk.Finish()
 	}
 	runBase()
@@ -46,8 +44,13 @@ func main() {
 	runTiny()
 	runFlipped()
 	runSymbols()
-	stopProf()
 	chk.Finish()
+}
+
+// rng runs one sub-space and then reports its buffered violations.
+func rng(name string, n int, desc func(i int) string, fn func(l *mc.Local, i int)) {
+	chk.Range(name, n, desc, fn)
+	flush()
 }
 
 type size struct{ w, h int }
@@ -92,12 +95,12 @@ func roots(sizes []size) []root {
 
 func runBase() {
 	rs := roots(append(smallSizes(), largeSizes...))
-	chk.Range(fmt.Sprintf("base luminance: %d source kinds x %d sizes, position-coded colours, every pixel against the documented formula", len(kinds), len(rs)/len(kinds)), len(rs),
+	rng(fmt.Sprintf("base luminance: %d source kinds x %d sizes, position-coded colours, every pixel against the documented formula", len(kinds), len(rs)/len(kinds)), len(rs),
 		func(i int) string { return fmt.Sprint(rs[i]) },
 		func(l *mc.Local, i int) { checkBase(l, rs[i].kind, rs[i].w, rs[i].h) })
 	// colour cube: every (R,G,B) in {0,1,2,3,127,128,254,255}^3 through every colour source kind
 	cube := []string{"RGBints", "RGBA", "NRGBA", "NRGBA-transparent", "Custom-NRGBA64"}
-	chk.Range("base luminance: colour cube {0,1,2,3,127,128,254,255}^3 as a 32x16 image through RGB ints, RGBA, NRGBA (opaque and fully transparent) and a custom image type with 16-bit colours", len(cube),
+	rng("base luminance: colour cube {0,1,2,3,127,128,254,255}^3 as a 32x16 image through RGB ints, RGBA, NRGBA (opaque and fully transparent) and a custom image type with 16-bit colours", len(cube),
 		func(i int) string { return cube[i] },
 		func(l *mc.Local, i int) { checkCube(l, cube[i]) })
 }
@@ -175,17 +178,17 @@ func checkCube(l *mc.Local, kind string) {
 func runViews() {
 	small := roots(smallSizes())
 	d1 := chk.Pick(2, 3)
-	chk.Range(fmt.Sprintf("views: %d source kinds x sizes %s, full menu (<= 24 operations per state), all histories of length <= %d", len(kinds), pickS("1..6 x 1..6 + (7,12),(12,7)", "1..12 x 1..12"), d1), len(small),
+	rng(fmt.Sprintf("views: %d source kinds x sizes %s, full menu (<= 24 operations per state), all histories of length <= %d", len(kinds), pickS("1..6 x 1..6 + (7,12),(12,7)", "1..12 x 1..12"), d1), len(small),
 		func(i int) string { return fmt.Sprint(small[i]) },
 		func(l *mc.Local, i int) { search(l, small[i].kind, small[i].w, small[i].h, d1, true) })
 	large := roots(largeSizes)
-	d2 := chk.Pick(1, 2)
-	chk.Range(fmt.Sprintf("views: %d source kinds x sizes {39x40,40x40,41x47,48x48,200x3,3x200}, full menu, all histories of length <= %d", len(kinds), d2), len(large),
+	d2 := d1
+	rng(fmt.Sprintf("views: %d source kinds x sizes {39x40,40x40,41x47,48x48,200x3,3x200}, full menu, all histories of length <= %d", len(kinds), d2), len(large),
 		func(i int) string { return fmt.Sprint(large[i]) },
 		func(l *mc.Local, i int) { search(l, large[i].kind, large[i].w, large[i].h, d2, true) })
 	all := roots(append(smallSizes(), largeSizes...))
 	d3 := chk.Pick(4, 6)
-	chk.Range(fmt.Sprintf("views: %d source kinds x all %d sizes, six-operation sub-menu {crop(1,1,w-2,h-2), crop(0,0,w-1,h), invert, rotate, crop(1,0,w-1,h), crop(0,1,w,h-1)}, all histories of length <= %d", len(kinds), len(all)/len(kinds), d3), len(all),
+	rng(fmt.Sprintf("views: %d source kinds x all %d sizes, six-operation sub-menu {crop(1,1,w-2,h-2), crop(0,0,w-1,h), invert, rotate, crop(1,0,w-1,h), crop(0,1,w,h-1)}, all histories of length <= %d", len(kinds), len(all)/len(kinds), d3), len(all),
 		func(i int) string { return fmt.Sprint(all[i]) },
 		func(l *mc.Local, i int) { search(l, all[i].kind, all[i].w, all[i].h, d3, false) })
 	chk.Sample("view history", vcase{"view", "RGBints", 5, 4, []string{"crop(1,0,4,4)", "invert", "crop(1,0,4,4)"}})
@@ -200,7 +203,6 @@ func replay(path string) {
 		fmt.Println("cannot load replay:", err)
 		return
 	}
-	chk.Count("evaluations", 1)
 	l := chk.NewLocal()
 	defer l.Merge()
 	switch raw["Part"] {
@@ -224,6 +226,7 @@ func replay(path string) {
 		var c vcase
 		mc.LoadReplay(path, &c)
 		fmt.Printf("replay view %s %dx%d ops=%v\n", c.Kind, c.W, c.H, c.Ops)
+		l.Count("evaluations", 1)
 		s := &stepper{l: l, kind: c.Kind, w: c.W, h: c.H}
 		src, m, msg := initial(c.Kind, c.W, c.H)
 		if msg != "" {
